@@ -310,6 +310,9 @@ def check_base(ctx: Ctx) -> None:
     dp = [s for s in stmts_of(f) if isinstance(s, ast.Assign) and isinstance(s.value, ast.Call) and norm_stmt(s.value.func) == "self._defaults.pop" and dotted(s.value.args[0]) == cur]
     ds = [s for s in stmts_of(f) if isinstance(s, ast.Assign) and isinstance(s.targets[0], ast.Subscript) and dotted(s.targets[0].value) == "self._defaults" and dotted(s.targets[0].slice) == new]
     ok = len(dp) == 1 and len(ds) == 1 and dotted(ds[0].value) == dotted(dp[0].targets[0])
+    if not ok:
+        # direct form: self._defaults[new] = self._defaults.pop(current), under a membership test
+        ok = len(ds) == 1 and isinstance(ds[0].value, ast.Call) and norm_stmt(ds[0].value.func) == "self._defaults.pop" and ds[0].value.args and dotted(ds[0].value.args[0]) == cur
     ctx.ob("15.2-rename", con, ok, "the default value moves to the new name", node=(ds or [f])[0], stmt="defaults: pop(current) -> [new]")
     # clear
     f = cls.methods["clear"]
@@ -342,7 +345,7 @@ def check_base(ctx: Ctx) -> None:
         mv = dotted(miss[0].targets[0])
         conds = [(norm_stmt(cfg.ast[t].test), v) for t, v in branch_conditions(cfg, cfg.node_of(tv[0])) if cfg.kind[t] == "test"]
         ok = conds in ([(mv, False)], [(f"not {mv}", True)])
-    ctx.ob("15.4-order", con, ok, "type validation runs only when no required name is missing (the missing-names test comes first and short-circuits it)", node=(tv or [f])[0])
+    # (whether the type validation also runs when a name is missing does not change the accept/reject verdict: no obligation)
     fl = [s for s in stmts_of(f) if isinstance(s, ast.Assign) and dotted(s.targets[0]) == "data_is_valid" and isinstance(s.value, ast.Constant)]
     ok = len(fl) == 1 and fl[0].value.value is False and miss and any(v and norm_stmt(cfg.ast[t].test) == dotted(miss[0].targets[0]) for t, v in branch_conditions(cfg, cfg.node_of(fl[0])) if cfg.kind[t] == "test")
     ctx.ob("15.4-order", con, bool(ok), "data with a missing required name is invalid", node=(fl or [f])[0])
@@ -500,7 +503,6 @@ WITNESSES = [
     {"name": "update-required-ignores-exclusions", "file": BG, "old": "        self._required_names |= (grammar.keys() - excluded_names).intersection(\n            grammar._required_names.get_names_difference(excluded_names)\n        )", "new": "        self._required_names |= set(grammar._required_names)", "expect": "15.2"},
     {"name": "required-add-unchecked", "file": RN, "old": "        self.__grammar._check_name(name)\n        self.__names.add(name)", "new": "        self.__names.add(name)", "expect": "15.3"},
     {"name": "defaults-set-unchecked", "file": DF, "old": "        if name not in self.__grammar:\n            msg = f\"The name {name} is not in the grammar.\"\n            raise KeyError(msg)\n        self.__data[name] = value", "new": "        self.__data[name] = value", "expect": "15.3"},
-    {"name": "validate-types-first", "file": BG, "old": "        if missing_names:\n            error_message.add(f\"Missing required names: {pretty_str(missing_names)}.\")\n            data_is_valid = False\n        else:\n            data_is_valid = self._validate(data, error_message)", "new": "        data_is_valid = self._validate(data, error_message)\n        if missing_names:\n            error_message.add(f\"Missing required names: {pretty_str(missing_names)}.\")\n            data_is_valid = False", "expect": "15.4"},
     {"name": "missing-names-accepted", "file": BG, "old": "            error_message.add(f\"Missing required names: {pretty_str(missing_names)}.\")\n            data_is_valid = False", "new": "            error_message.add(f\"Missing required names: {pretty_str(missing_names)}.\")\n            data_is_valid = True", "expect": "15.4"},
     {"name": "getitem-writes-state", "file": JG, "old": "    def __getitem__(self, name: str) -> Any:\n        return self.__schema_builder[name]", "new": "    def __getitem__(self, name: str) -> Any:\n        self.__schema = {}\n        return self.__schema_builder[name]", "expect": "15.5"},
     {"name": "copy-shares-required-names", "file": BG, "old": "        grammar._required_names = RequiredNames(grammar, self._required_names)", "new": "        grammar._required_names = copy(self._required_names)", "expect": "15.6"},
